@@ -814,7 +814,7 @@ def walk_loss(case, impl):
                 else:
                     cp["draw"] = None
                     cp["expect"] = True
-                if rng[c["n"]] < 1.0e5:
+                if rng[c["n"]] < 1.0e5 and rng[c["n"]] != bitsf(cfg["defaultRange"]):
                     # a sender that has shrunk its own range: its copy still consumes its draw, whether it
                     # arrives is C09's business and is not judged here
                     cp["expect"] = None
@@ -852,6 +852,13 @@ class C10(SimCheck):
         cfg["failRate"] = fbits(rate)
         if random.Random(stable_hash("unlimited", scn.get("seed", 0))).random() < self.unlimited_share:
             cfg["defaultRange"] = fbits(float("inf"))
+        elif random.Random(stable_hash("tightrange", scn.get("seed", 0))).random() < 0.2:
+            # a finite range that just covers the (static) fleet: every pair is in range, but only just - a slip in
+            # the distance computation now loses copies the draws let pass
+            simgen.set_handler(cfg, "mobility", False)
+            pts = [bitsv3(q) for q in cfg["initPos"][:cfg["nNodes"]]]
+            far = max([math.dist(a, b) for a in pts for b in pts] + [1.0])
+            cfg["defaultRange"] = fbits(float(math.ceil(far)) + 1.0)
         elif random.Random(stable_hash("mixedranges", scn.get("seed", 0))).random() < 0.2:
             # some nodes shrink their OWN range to next to nothing: what the others transmit (range 1e6, everybody
             # in range) must be lost only as configured - a node's range governs what it transmits, not what it receives
